@@ -128,7 +128,8 @@ DeadHeadsOK(N, O) ==
                  b == N.nd[t[ch[k] + 1]]
                  e == v.dhs[k]
              IN /\ e.orig = a.l2 /\ e.dest = b.l1
-                /\ a.t2 <= e.dep /\ e.dep <= e.arr /\ e.arr <= b.t1
+                \* (a transfer from the start depot may begin before the first planning day: no lower bound there)
+                /\ (IsDepot(a) \/ a.t2 <= e.dep) /\ e.dep <= e.arr /\ (IsDepot(b) \/ e.arr <= b.t1)
 
 (***************************************************************************)
 (* C04: the reported objective is the true value                           *)
